@@ -401,3 +401,101 @@ def unit_rows(sim, src_name, freq_name):
         a = rec._adjoint_source(coo, strength=1.0).get_field(grid=grid, frequency=f)
         rows.append(np.array(a.field) / (-a.smu0))
     return rows
+
+
+# -------------------------------------------- computational grid /= model grid
+def comp_grid(spec, npr):
+    """A tiny computational grid that differs from the model grid: its interior
+    (second to second-last cell) covers the interior of the model grid (where
+    all sources and receivers live), its nodes are not aligned with the model
+    grid, and it extends beyond it (volume averaging extrapolates)."""
+    import emg3d
+    hs, org = [], []
+    for h, o in zip((spec['hx'], spec['hy'], spec['hz']), spec['origin']):
+        nodes = np.r_[0.0, np.cumsum(h)] + o
+        a = nodes[0] + npr.uniform(0.1, 0.9) * (nodes[1] - nodes[0])
+        b = nodes[-2] + npr.uniform(0.1, 0.9) * (nodes[-1] - nodes[-2])
+        nin = npr.randint(2, 4)                       # 2-3 interior cells
+        cuts = np.sort(npr.uniform(0.25, 0.75, nin - 1)) if nin == 2 else \
+            np.array([npr.uniform(0.2, 0.45), npr.uniform(0.55, 0.8)])
+        inner = a + np.r_[0.0, cuts, 1.0] * (b - a)
+        p1, p2 = npr.uniform(150, 350, 2)
+        nd = np.r_[a - p1, inner, b + p2]
+        nd = np.round(nd * 8) / 8                      # dyadic nodes
+        hs.append(np.diff(nd))
+        org.append(nd[0])
+    return emg3d.TensorMesh(hs, np.array(org))
+
+
+def vt_entries(mgrid, cgrid):
+    """Non-zero entries of discretize's volume_average(model grid, comp. grid)
+    (the matrix whose transpose _interp_volume_average_adj applies), as
+    ((model cell), (comp cell), weight) with 3-D F-order indices."""
+    import discretize
+    P = discretize.utils.volume_average(mgrid, cgrid).tocoo()
+    ms, cs = mgrid.shape_cells, cgrid.shape_cells
+    out = []
+    for r, c, w in zip(P.row, P.col, P.data):
+        if w == 0.0:
+            continue
+        out.append((np.unravel_index(int(c), ms, order='F'),
+                    np.unravel_index(int(r), cs, order='F'), float(w)))
+    return out
+
+
+def kentries(ent):
+    return '[' + '; '.join(
+        f"(({m[0]}, {m[1]}, {m[2]}), ({c[0]}, {c[1]}, {c[2]}), {kq(w)})" for m, c, w in ent) + ']'
+
+
+def np_volavg_edges(g, vol):
+    """numpy mirror of interp_edges_to_vol_averages (validated against the Coq
+    model in the same run): returns (3, nx, ny, nz)."""
+    gx, gy, gz = g
+    nx, ny, nz = vol.shape
+    o = np.zeros((3, nx, ny, nz))
+
+    def pad2(a, ax):
+        # edges -> cells along axis `ax`: cell j gets edge j and j+1; boundary edges twice
+        lo = np.take(a, range(0, a.shape[ax] - 1), axis=ax)
+        hi = np.take(a, range(1, a.shape[ax]), axis=ax)
+        s = lo + hi
+        first = [slice(None)] * 3
+        first[ax] = 0
+        last = [slice(None)] * 3
+        last[ax] = -1
+        s[tuple(first)] += np.take(a, 0, axis=ax)
+        s[tuple(last)] += np.take(a, a.shape[ax] - 1, axis=ax)
+        return s
+    o[0] = pad2(pad2(gx, 1), 2) * vol / 4
+    o[1] = pad2(pad2(gy, 0), 2) * vol / 4
+    o[2] = pad2(pad2(gz, 0), 1) * vol / 4
+    return o
+
+
+def np_pipeline(aniso, mshape, pairs, chains):
+    """numpy mirror of Model/Adjoint.v gradient_pipeline_T.
+    pairs: list of (smu0, efield, bfield, vol3d, entries or None)."""
+    acc = np.zeros((3, *mshape))
+    for smu0, e, b, vol, ent in pairs:
+        g = [np.real(getattr(b, 'f' + c) * smu0 * getattr(e, 'f' + c)) for c in 'xyz']
+        gc = np_volavg_edges(g, vol)
+        if ent is None:
+            acc += gc
+        else:
+            for m, c, w in ent:
+                acc[:, m[0], m[1], m[2]] += w * gc[:, c[0], c[1], c[2]]
+    cx, cy, cz = chains
+    hy, hz = aniso in (1, 3), aniso in (2, 3)
+    g0 = acc[0].copy()
+    if not hy:
+        g0 += acc[1]
+    if not hz:
+        g0 += acc[2]
+    out = [g0 * cx]
+    if hy:
+        out.append(acc[1] * cy)
+    if hz:
+        out.append(acc[2] * cz)
+    return np.array(out)
+
